@@ -1639,7 +1639,7 @@ int __wrap(pthread_key_create)(pthread_key_t *key, void (*destructor)(void *)) {
   int ret;
   (void)_;
   if (myth_should_wrap_pthread()) {
-    ret = myth_key_create_body((myth_key_t *)key, destructor);
+    ret = myth_key_create_posix_body((myth_key_t *)key, destructor);
   } else {
     ret = real_pthread_key_create(key, destructor);
   }
